@@ -28,6 +28,7 @@ def run(ctx):
         ctx.guard("C07", "encoder", lambda: encoder_callers(ctx, prog))
         ctx.guard("C07", "rle-formulas", lambda: rle.encoding(ctx, prog))
         ctx.guard("C07", "runs", lambda: normal.run_limit_agreement(ctx, prog))
+        ctx.guard("C07", "rle-validator", lambda: rle.validator_refusals(ctx, prog))
         ctx.guard("C07", "casts", lambda: casts.census(ctx, prog, scope='hash_dual::', floor=3))
     return ctx.finish(EXPL, ["raw inputs of the compressor are valid raw block hashes (length <= capacity)"])
 
